@@ -43,7 +43,8 @@ def amounts(A):
 
 def exps():
     return [("0", lambda W: 0), ("1", lambda W: 1), ("2", lambda W: 2), ("3", lambda W: 3), ("5", lambda W: 5),
-            ("Bm1", lambda W: W.bits("BUintD8")), ("63", lambda W: 63), ("64", lambda W: 64), ("big", lambda W: 1000)]
+            ("Bm1", lambda W: W.bits("BUintD8")), ("63", lambda W: 63), ("64", lambda W: 64), ("big", lambda W: 1000),
+            ("odd_big", lambda W: 1001)]
 
 
 class Op:
